@@ -18,7 +18,7 @@ RULE = ("modules of 1-3 dataclasses written to real files (linear inheritance ch
         "every (class, field) gets a subset of the five documentation positions {help=, docstring below, comment block above, "
         "inline comment, class-docstring Args entry} filled with marker texts that are distinct per class x field x position x "
         "line; all 32 subsets x neighbour documentation x field order x quote style are enumerated for a two-field class, the rest "
-        "is sampled from VERIF_SEED over: string defaults with '#' inside single / double / triple quotes, escaped quotes and backslashes "
+        "is sampled from VERIF_SEED over: comment texts that contain '#', ':' and '=' themselves, string defaults with '#' inside single / double / triple quotes, escaped quotes and backslashes "
         "(with and without a real comment after the string), field order, 0-2 blank lines, 1-3 line comment blocks, one-line / multi-line docstrings "
         "(text on the quote lines or not), both quote styles, decorators with arguments, field names that are prefixes of each "
         "other. Extra streams: a class docstring documenting an inherited field; multiple inheritance queried in both orders "
@@ -146,6 +146,14 @@ def marker(cls, fname, pos, i=0):
     return f"{pos[:2]}{i} {fname} {cls}"
 
 
+# comment texts may themselves contain '#', ':' and '=' (issue numbers, "key: value", "a = b")
+COMMENT_EXTRAS = ["", "", "", " #12", ": see #3 # and #4", " = a: b", " (default = 0) # noqa"]
+
+
+def comment_marker(rng, cls, fname, pos, i=0):
+    return marker(cls, fname, pos, i) + rng.choice(COMMENT_EXTRAS)
+
+
 def mk_below(rng, cls, fname, q=None, shape=None):
     q = q or rng.choice(["d", "s"])
     shape = shape or rng.choice(["one", "one", "own", "text", "mixed"])
@@ -163,8 +171,8 @@ def mk_field(rng, cls, name, subset, blank=None, q=None, shape=None, nabove=None
     typ = rng.choice(TYPES)
     value = rng.choice(VALUES[typ] + [None] * (0 if "help" in subset else 1)) if rng.random() < 0.85 or "help" in subset else None
     return dict(name=name, type=typ, value=value, blank=rng.choice([0, 0, 1, 2]) if blank is None else blank,
-                above=[marker(cls, name, "above", i) for i in range(nabove or rng.choice([1, 1, 2, 3]))] if "above" in subset else [],
-                inline=marker(cls, name, "inline") if "inline" in subset else None,
+                above=[comment_marker(rng, cls, name, "above", i) for i in range(nabove or rng.choice([1, 1, 2, 3]))] if "above" in subset else [],
+                inline=comment_marker(rng, cls, name, "inline") if "inline" in subset else None,
                 below=mk_below(rng, cls, name, q, shape) if "below" in subset else None,
                 help=marker(cls, name, "help") if "help" in subset else None,
                 help_via=rng.choice(["custom", "metadata"]))
